@@ -22,7 +22,7 @@ theorem fnVal_concat (vs : List Val) : fnVal "concat" vs = concatAllVal vs := by
   simp [fnVal]
 
 /-- operators whose value is not given by `binVal`: the divisions and the LIKE family -/
-def specialOp (op : Op) : Bool := coreDiv op || likeOp op || inOp op
+def specialOp (op : Op) : Bool := coreDiv op || likeOp op || inOp op || btwOp op
 
 theorem coreBin_not_div {op : Op} (h : coreBin op = true) : specialOp op = false := by
   cases op <;> simp [coreBin] at h <;> rfl
@@ -33,7 +33,7 @@ theorem coreList_not_div {op : Op} (h : coreList op = true) : specialOp op = fal
 theorem evalCore_binary (env : String → Val) (d : Dialect) (op : Op) (l r : SaExpr) (n : Option Op)
     (esc : Option String) (ty : Ty) (h : specialOp op = false) :
     evalCore env d (.binary op l r n esc ty) = binVal op (evalCore env d l) (evalCore env d r) := by
-  cases op <;> simp [specialOp, coreDiv, likeOp, inOp] at h <;> rfl
+  cases op <;> simp [specialOp, coreDiv, likeOp, inOp, btwOp] at h <;> rfl
 
 theorem evalCore_like (env : String → Val) (d : Dialect) (op : Op) (l r : SaExpr) (n : Option Op)
     (esc : Option String) (ty : Ty) (h : likeOp op = true) :
@@ -47,6 +47,12 @@ theorem evalCore_in (env : String → Val) (d : Dialect) (op : Op) (l : SaExpr) 
       ofTV (if op = .in_op then evalIn (evalCore env d l) (vs.map litVal)
             else evalNotIn (evalCore env d l) (vs.map litVal)) := by
   cases op <;> simp [inOp] at h <;> rfl
+
+theorem evalCore_btw (env : String → Val) (d : Dialect) (op : Op) (l lo hi : SaExpr) (cty : Ty)
+    (n : Option Op) (esc : Option String) (ty : Ty) (h : btwOp op = true) :
+    evalCore env d (.binary op l (.clist .and_ [lo, hi] false false cty) n esc ty) =
+      btwVal (decide (op = .not_between_op)) (evalCore env d l) [evalCore env d lo, evalCore env d hi] := by
+  cases op <;> simp [btwOp] at h <;> rfl
 
 theorem not3_not3 (t : TV) : not3 (not3 t) = t := by
   cases t with
@@ -302,8 +308,19 @@ theorem evalG_render (env : String → Val) (d : Dialect) :
     rfl
   | .binary op l r n esc ty, hc => by
     obtain ⟨hcl, hk⟩ := core_binary hc
-    rcases hk with ⟨hbd, _, hcr⟩ | ⟨hlk, _, _, hcr⟩ | ⟨hin, _, hir⟩
-    case inr.inr =>
+    rcases hk with ⟨hbd, _, hcr⟩ | ⟨hlk, _, _, hcr⟩ | ⟨hin, _, hir⟩ | ⟨hbo, _, hbr⟩
+    case inr.inr.inr =>
+      obtain ⟨lo, hi, cty, he, hclo, hchi, _, _⟩ := coreBtw_cases hbr
+      subst he
+      obtain ⟨t, heq⟩ := render_btw d true op l lo hi cty n esc ty hbo
+      rw [heq, evalCore_btw env d op l lo hi cty n esc ty hbo]
+      have hl := evalG_render env d l hcl
+      have h1 := evalG_render env d lo hclo
+      have h2 := evalG_render env d hi hchi
+      cases op <;> simp [btwOp] at hbo
+      · simp only [evalG, hl, h1, h2]; rfl
+      · simp only [evalG, hl, h1, h2]; rfl
+    case inr.inr.inl =>
       obtain ⟨vs, lty, he, hne⟩ := inRight_cases hir
       subst he
       rw [render_inNode d true op l vs lty n esc ty hin hne, evalCore_in env d op l vs lty op n esc ty hin]
@@ -672,8 +689,12 @@ def negSound : SaExpr → Prop
   | .binary op _ _ (some n) _ _ =>
     if likeOp op then likePair op n = true
     else if inOp op then inPair op n = true
+    else if btwOp op then btwPair op n = true
     else (soundPair op n ∧ soundPair n op)
   | _ => True
+
+theorem inOp_btw_false {op : Op} (h : btwOp op = true) : inOp op = false := by
+  cases op <;> simp [btwOp] at h <;> rfl
 
 theorem coreBin_not_like {op : Op} (h : coreBin op = true) : likeOp op = false := by
   cases op <;> simp [coreBin] at h <;> rfl
@@ -728,29 +749,33 @@ theorem negate_eval (env : String → Val) (d : Dialect) (e : SaExpr) (h : BoolE
     | some n =>
       obtain ⟨hcl, hk⟩ := core_binary hc
       simp only [boolShape, Bool.or_eq_true, Bool.and_eq_true] at hsh
-      rcases hsh with (hsh | hsh) | hsh
+      rcases hsh with ((hsh | hsh) | hsh) | hsh
       · have he : esc = none := by cases esc <;> simp at hsh ⊢
         subst he
         have hlf := coreBin_not_like hsh.1.1
         have hlf' := coreBin_not_like hsh.1.2
         have hif := coreBin_not_in hsh.1.1
         have hif' := coreBin_not_in hsh.1.2
+        have hbf := coreBin_not_btw hsh.1.1
+        have hbf' := coreBin_not_btw hsh.1.2
         have hcr : Core r = true := by
-          rcases hk with ⟨_, _, h⟩ | ⟨hl, _, _, _⟩ | ⟨hi, _, _⟩
+          rcases hk with ⟨_, _, h⟩ | ⟨hl, _, _, _⟩ | ⟨hi, _, _⟩ | ⟨hb, _, _⟩
           · exact h
           · rw [hlf] at hl; cases hl
           · rw [hif] at hi; cases hi
+          · rw [hbf] at hb; cases hb
         simp only [negate, negateInBinary_core r n op hcr]
-        simp only [negSound, hlf, hif, Bool.false_eq_true, if_false] at hs
+        simp only [negSound, hlf, hif, hbf, Bool.false_eq_true, if_false] at hs
         refine ⟨?_, ?_⟩
         · rw [mkBinary_eval env d l r n ty (some op) hsh.1.2 hcl hcr,
             evalCore_binary env d op l r (some n) none ty (coreBin_not_div hsh.1.1)]
           exact hs.1 _ _
-        · simp only [mkBinary, negSound, hlf', hif', Bool.false_eq_true, if_false]
+        · simp only [mkBinary, negSound, hlf', hif', hbf', Bool.false_eq_true, if_false]
           exact ⟨hs.2, hs.1⟩
       · have hlo : likeOp op = true := (likePair_ops hsh).1
         have hln : likeOp n = true ∧ likePair n op = true := (likePair_ops hsh).2
-        rcases hk with ⟨hbd, _, _⟩ | ⟨_, cl, cr, hcr⟩ | ⟨hi, _, _⟩
+        rcases hk with ⟨hbd, _, _⟩ | ⟨_, cl, cr, hcr⟩ | ⟨hi, _, _⟩ | ⟨hb, _, _⟩
+        case inr.inr.inr => rw [btwOp_not_like hb] at hlo; cases hlo
         · rw [coreBinD_not_like hbd] at hlo; cases hlo
         · simp only [negate, negateInBinary_core r n op hcr]
           have hbn : boolCtx n = false := like_not_boolCtx hln.1
@@ -765,7 +790,8 @@ theorem negate_eval (env : String → Val) (d : Dialect) (e : SaExpr) (h : BoolE
         · rw [inOp_not_like hi] at hlo; cases hlo
       · have hio : inOp op = true := (inPair_ops hsh.1).1
         have hin : inOp n = true ∧ inPair n op = true := (inPair_ops hsh.1).2
-        rcases hk with ⟨hbd, _, _⟩ | ⟨hl, _, _, _⟩ | ⟨_, _, hir⟩
+        rcases hk with ⟨hbd, _, _⟩ | ⟨hl, _, _, _⟩ | ⟨_, _, hir⟩ | ⟨hb, _, _⟩
+        case inr.inr.inr => rw [inOp_not_btw hio] at hb; cases hb
         · rw [coreBinD_not_in hbd] at hio; cases hio
         · rw [inOp_not_like hio] at hl; cases hl
         · obtain ⟨vs, lty, hr, hne⟩ := inRight_cases hir
@@ -785,6 +811,31 @@ theorem negate_eval (env : String → Val) (d : Dialect) (e : SaExpr) (h : BoolE
               simp [truth_ofTV, evalNotIn, not3_not3]
           · simp only [negSound, inOp_not_like hin.1, hin.1, Bool.false_eq_true, if_false, if_true]
             exact hin.2
+      · have hbo : btwOp op = true := (btwPair_ops hsh.1).1
+        have hbn : btwOp n = true ∧ btwPair n op = true := (btwPair_ops hsh.1).2
+        rcases hk with ⟨hbd, _, _⟩ | ⟨hl, _, _, _⟩ | ⟨hi, _, _⟩ | ⟨_, _, hbr⟩
+        · rw [coreBinD_not_btw hbd] at hbo; cases hbo
+        · rw [btwOp_not_like hbo] at hl; cases hl
+        · rw [inOp_not_btw hi] at hbo; cases hbo
+        · obtain ⟨lo, hi, cty, hr, hclo, hchi, _, _⟩ := coreBtw_cases hbr
+          subst hr
+          have hbc : boolCtx n = false := by
+            cases n <;> simp [btwOp] at hbn <;> rfl
+          have hsg : selfGroup (some n) (SaExpr.clist .and_ [lo, hi] false false cty) =
+              .clist .and_ [lo, hi] false false cty := by
+            cases n <;> simp [btwOp] at hbn <;> simp [selfGroup, wouldGroup]
+          simp only [negate, negateInBinary, mkBinary, hsg]
+          refine ⟨?_, ?_⟩
+          · rw [evalCore_btw env d n _ lo hi cty (some op) esc ty hbn.1,
+              evalCore_btw env d op l lo hi cty (some n) esc ty hbo,
+              selfGroup_eval env d n l hcl (Or.inl hbc)]
+            have hp := hsh.1
+            simp only [btwPair, Bool.or_eq_true, Bool.and_eq_true, decide_eq_true_eq] at hp
+            rcases hp with ⟨h1, h2⟩ | ⟨h1, h2⟩ <;> subst h1 <;> subst h2 <;>
+              simp [btwVal, truth_ofTV, not3_not3]
+          · simp only [negSound, btwOp_not_like hbn.1, inOp_btw_false hbn.1, hbn.1, Bool.false_eq_true,
+              if_false, if_true]
+            exact hbn.2
   | clist op cs gr bl ty =>
     simp only [negate]
     refine ⟨?_, trivial⟩
@@ -985,6 +1036,7 @@ def noIsGen : U → Bool
       noIsGen a && noIsGen b
   | .like _ _ a b => noIsGen a && noIsGen b
   | .inOp _ _ x => noIsGen x
+  | .between x lo hi => noIsGen x && noIsGen lo && noIsGen hi
   | .not_ a => noIsGen a
   | .neg a => noIsGen a
   | .cast _ a => noIsGen a
@@ -1061,7 +1113,7 @@ theorem negSound_construct (x y : SaExpr) (op n : Op) (hop : coreBin op = true)
     negSound (constructForOp x y op .bool (some n) none) := by
   unfold constructForOp
   simp only [hna, Bool.false_eq_true, if_false, mkBinary, negSound, coreBin_not_like hop,
-    coreBin_not_in hop]
+    coreBin_not_in hop, coreBin_not_btw hop]
   exact hsp
 
 end SaVerif.Expr
@@ -1540,7 +1592,33 @@ theorem build_bool_eval (env : String → Val) (d : Dialect) : ∀ (u : U) (e : 
         · simp only [negSound, hl, if_true]
           exact hp
   | .neg _, _, hu, _, _ => by simp [BoolU] at hu
-  | .between _ _ _, _, hu, _, _ => by simp [BoolU] at hu
+  | .between x lo hi, e, hu, hn, hb => by
+    simp only [BoolU, Bool.and_eq_true] at hu
+    simp only [noIsGen, Bool.and_eq_true] at hn
+    simp only [build] at hb
+    cases hx : build x with
+    | none => simp [hx] at hb
+    | some x' =>
+      cases hl : build lo with
+      | none => simp [hx, hl] at hb
+      | some lo' =>
+        cases hh : build hi with
+        | none => simp [hx, hl, hh] at hb
+        | some hi' =>
+          simp only [hx, hl, hh, Option.some.injEq] at hb
+          subst hb
+          have nx := build_num x x' hu.1.1 hx
+          have ex := build_num_eval env d x x' hu.1.1 hn.1.1 hx
+          have el := build_num_eval env d lo lo' hu.1.2 hn.1.2 hl
+          have eh := build_num_eval env d hi hi' hu.2 hn.2 hh
+          have hsg : selfGroup (some .between_op) (SaExpr.clist .and_ [lo', hi'] false false .null) =
+              .clist .and_ [lo', hi'] false false .null := by simp [selfGroup, wouldGroup]
+          simp only [betweenImpl, mkBinary, hsg]
+          refine ⟨?_, ?_⟩
+          · rw [evalCore_btw env d .between_op _ lo' hi' .null (some .not_between_op) none .null rfl,
+              selfGroup_eval env d .between_op x' nx.core (Or.inl rfl), ex, el, eh]
+            simp [btwVal, truth_ofTV, evalBoolU]
+          · simp [negSound, likeOp, inOp, btwOp, btwPair]
   | .case_ _ _ _, _, hu, _, _ => by simp [BoolU] at hu
   | .cast _ _, _, hu, _, _ => by simp [BoolU] at hu
   | .coalesce _, _, hu, _, _ => by simp [BoolU] at hu
